@@ -679,7 +679,7 @@ def sd_layout(repo: Repo, chk: Check) -> None:
                 who = "owner" if "owner" in repr(arg) else ("group" if "group" in repr(arg) else "?")
                 pos.setdefault(who, off)
         # ACL starts: literal 0200 after the 20 byte header
-        acl_offs = [off for seg, off in zip(segs, tb.offs) if seg.kind == "lit" and seg.value == b"\x02\x00" and not (off == 0)]
+        acl_offs = [off for seg, off in zip(segs, tb.offs) if (seg.kind == "lit" and seg.value == b"\x02\x00" and not (off == 0)) or (seg.kind == "raw" and seg.a.get("call") is not None and seg.call.rec.name.endswith("acl_to_bytes"))]
         names = [k for k in ("sacl", "dacl") if has[k]]
         for k, off in zip(names, acl_offs):
             pos[k] = off
